@@ -158,14 +158,31 @@ func BuildCase(res *Result) (term string, steps int, problem string) {
 			break
 		}
 	}
+	cut := map[int64]bool{} // goroutines that were still producing points when shutdown woke up
 	for _, e := range res.Events {
 		if wake >= 0 && e.Seq > wake {
+			cut[e.Goid] = true
 			continue
 		}
 		if _, seen := by[e.Goid]; !seen {
 			order = append(order, e.Goid)
 		}
 		by[e.Goid] = append(by[e.Goid], e)
+	}
+	// a goroutine that was cut may have been in the middle of a step: its last step is dropped
+	isInput := map[string]bool{"dispatcher.recv": true, "tp.recv": true, "pp.recv": true, "bp.recv": true, "bp.closed": true,
+		"bp.timer": true, "bp.flush": true, "bp.response": true}
+	for g := range cut {
+		evs := by[g]
+		last := -1
+		for i, e := range evs {
+			if isInput[e.Kind] {
+				last = i
+			}
+		}
+		if last > 0 {
+			by[g] = evs[:last]
+		}
 	}
 	// first-pass errors of the topic workers are environment results for m_pres
 	for _, g := range order {
